@@ -740,8 +740,14 @@ class GCodeBuilder(GCodeCore):
             HaltMode.WAIT_FOR_CHAMBER: "chamber-temperature",
         }
 
-        if temperature is not None and mode in target_names:
-            self.state._user_bounds.validate(target_names[mode], temperature)
+        if mode in target_names:
+            # Both words may be given: each one is a temperature
+
+            for key in keys:
+                value = self._get_user_param([key], kwargs)
+
+                if value is not None:
+                    self.state._user_bounds.validate(target_names[mode], value)
 
         self.state._set_halt_mode(mode)
 
